@@ -1010,6 +1010,22 @@ def _run(ctx):
                 ctx.count("search-only:bin-on-vertex:" + d["kind"])
                 if v:
                     extra_bad.append((dict(desc=d, i=i, w=w), v))
+    # complex banks that start well above 0 Hz (so that no filter reaches below it): the TOP filters, whose supports run
+    # past the Nyquist frequency, on a few widths each
+    for d in (dict(kind="gt", rate=16000, num_filts=40, scale="mel", low_hz=1000.0, high_hz=None, l2=False, erb=False, order=4, max_centered=True),
+              dict(kind="gt", rate=8000, num_filts=24, scale="mel", low_hz=1500.0, high_hz=None, l2=False, erb=False, order=4, max_centered=False),
+              dict(kind="gt", rate=16000, num_filts=30, scale="bark", low_hz=600.0, high_hz=None, l2=False, erb=True, order=6, max_centered=True),
+              dict(kind="gabor", rate=16000, num_filts=40, scale="mel", low_hz=1000.0, high_hz=None, l2=False, erb=False),
+              dict(kind="gabor", rate=8000, num_filts=20, scale="bark", low_hz=800.0, high_hz=None, l2=False, erb=True)):
+        bank = build(mods, d, np)
+        if bank is None:
+            continue
+        for i in range(max(0, bank.num_filts - 6), bank.num_filts):
+            for w in (64, 255, 512, 1001):
+                v = oracle(np, eps, bank, d["kind"], i, w)
+                ctx.count("search-only:top-filters-of-raised-banks:" + d["kind"])
+                if v:
+                    extra_bad.append((dict(desc=d, i=i, w=w), v))
     for c, v in extra_bad[:5]:
         ctx.fail("property violated on the implementation: %s" % (v,), dict(input=pub(c), violated=v), kind="impl")
     # ---------------- the same clauses with the package setting EFFECTIVE_SUPPORT_THRESHOLD re-assigned at run time
